@@ -212,7 +212,9 @@ def run_case(case, ctx):
             ctx.reject('residue_value', observed=v, expected=gz0, detail=dict(est=est, pole_order=p, order=order),
                        path=path, method=method, pole_order=p)
             return
-        if not opts:
+        if not opts and abs(gz0) <= 1e-6:
+            ctx.count('usefulness_not_judged_where_the_limit_itself_is_zero')      # (a relative notion: nothing to compare with)
+        elif not opts:
             ctx.count('default_estimate_usefulness_asserted')
             if not est <= USEFUL * abs(gz0):
                 ctx.reject('default_configuration_reports_a_useless_estimate', observed=est, expected=USEFUL * abs(gz0),
@@ -370,7 +372,9 @@ def run_case(case, ctx):
                                    largest_step=float(np.max(np.abs(offsets))) if offsets.size else None),
                        path=path, method=method, kernel=kernel, order=order, complex_z0=isinstance(z0, complex))
             return
-        if not opts:
+        if not opts and abs(gz0) <= 1e-6:
+            ctx.count('usefulness_not_judged_where_the_limit_itself_is_zero')
+        elif not opts:
             ctx.count('default_estimate_usefulness_asserted')
             e_k = float(est[k if est.size > 1 else 0])
             if not e_k <= USEFUL * abs(gz0):
